@@ -480,6 +480,13 @@ def _refine(b: Bounds, env: Env, cond, pol: bool):
                 env.assume(t, Iv(other.lo, INF, other.ls, True))
             elif r == "eq":
                 env.assume(t, other)
+            elif r == "ne" and other.lo == other.hi and not other.ls and not other.hs:
+                # t != c for a point c: if t's interval ends at c (closed), that end becomes strict  (m >= 0 and m != 0  ==>  m > 0)
+                c_ = other.lo
+                if it.lo == c_ and not it.ls:
+                    env.assume(t, Iv(c_, INF, True, True))
+                if it.hi == c_ and not it.hs:
+                    env.assume(t, Iv(-INF, c_, True, True))
         # definite contradiction from intervals
         if rel == "lt" and ix.lo >= iy.hi:
             env.infeasible = True
@@ -488,6 +495,10 @@ def _refine(b: Bounds, env: Env, cond, pol: bool):
         if rel == "gt" and ix.hi <= iy.lo:
             env.infeasible = True
         if rel == "ge" and (ix.hi < iy.lo or (ix.hi == iy.lo and (ix.hs or iy.ls))):
+            env.infeasible = True
+        if rel == "eq" and (ix.hi < iy.lo or iy.hi < ix.lo or (ix.hi == iy.lo and (ix.hs or iy.ls)) or (iy.hi == ix.lo and (iy.hs or ix.ls))):
+            env.infeasible = True
+        if rel == "ne" and ix.lo == ix.hi == iy.lo == iy.hi and not (ix.ls or ix.hs or iy.ls or iy.hs):
             env.infeasible = True
         if isinstance(x, T.Term) and isinstance(y, T.Term):
             if rel in ("lt", "le"):
